@@ -25,7 +25,7 @@ COMPONENTS = {
 }
 ASSUMPTIONS = ['no name is a directory prefix of another; no ".", ".." or empty segments', 'the fakes encode my reading of the S3 / B2 documentation']
 PROBES = ['list_multi_page_s3', 'list_multi_page_b2', 'download_missing', 'overwrite', 'delete_missing', 'spelling_relative', 'spelling_dot',
-          'concurrent_reader', 'concurrent_writer', 'name_nonascii', 'name_special', 'name_tmp_suffix']
+          'concurrent_reader', 'concurrent_writer', 'name_nonascii', 'name_special', 'name_tmp_suffix', 'name_near_255_bytes']
 TIERS = {'quick': {'budget_s': 60, 'batch': 10}, 'thorough': {'budget_s': 900, 'batch': 20}}
 
 ALPH = ['abcdefghijklmnopqrstuvwxyz0123456789', 'AB-_.~', ' !$&\'()*+,;=:@', '%?#[]{}|^`"<>\\', 'äßñ日本한😀']
@@ -43,6 +43,12 @@ def gen_segment(rng, special_p):
         s = 'x' + s.strip('.') + 'y'
     if rng.random() < 0.03:
         s += '.tmp'
+    if rng.random() < 0.04:
+        # components near the 255-byte limit of common file systems (ASCII and multi-byte)
+        fill = rng.choice(['q', 'ä', '日'])
+        target = rng.choice([240, 241, 243, 250, 255])
+        while len((s + fill).encode()) <= target:
+            s += fill
     return s
 
 
@@ -61,7 +67,7 @@ def gen_names(rng, n, special_p):
         else:
             segs = [gen_segment(rng, special_p) for _ in range(depth)]
         name = '/'.join(segs)
-        if any(len(s.encode()) > 200 for s in segs):
+        if any(len(s.encode()) > 255 for s in segs):
             continue
         ok = name not in names
         for other in names:
@@ -305,6 +311,8 @@ def run_case(case):
             probes['name_special'] = 1
         if any(n.endswith('.tmp') for n in case['names']):
             probes['name_tmp_suffix'] = 1
+        if any(len(seg.encode()) >= 240 for n in case['names'] for seg in n.split('/')):
+            probes['name_near_255_bytes'] = 1
         r = world.run_process(env, main, world.SchedOpts.from_dict(case['opts']))
         if not viol:
             if r.hang is not None:
